@@ -4,6 +4,7 @@ import (
 	"github.com/apmckinlay/gsuneido/core"
 	"github.com/apmckinlay/gsuneido/db19/meta/schema"
 	"github.com/apmckinlay/gsuneido/db19/stor"
+	rt "github.com/apmckinlay/gsuneido/zzverifrt"
 )
 
 // vmkrec builds a record of string fields
@@ -18,15 +19,8 @@ func vmkrec(args ...string) core.Record {
 // vpk is the packed form of a string value (what a single-column key of it looks like)
 func vpk(s string) string { return core.Pack(core.SuStr(s)) }
 
-func vtry(f func()) (panicked bool) {
-	defer func() {
-		if e := recover(); e != nil {
-			panicked = true
-		}
-	}()
-	f()
-	return false
-}
+// vtry reports whether f panicked (an Assume violated during a native replay is passed on)
+func vtry(f func()) (panicked bool) { return rt.Try(f) }
 
 // vnewdb: an in-memory database with the synchronous conflict checker
 func vnewdb() *Database {
